@@ -170,7 +170,7 @@ fn pre_for(site: Site, pos: usize) -> Vec<Pre> {
 
 pub fn run(ctx: &Ctx) -> i32 {
     let mut report = ctx.report("C20", "exploration");
-    report.rule = "all 256 result codes x 14 abort sites {commit / cancel of one transaction while another one stays open, read_card, begin (reservation), commit (partial reversal), cancel (pre-auth reversal), configure: system info / set terminal id / initialization / reversal of a dangling pre-authorisation / end-of-day, end-of-day inside commit and inside cancel, reversal of a dangling pre-authorisation inside commit} x position of the abort in the reply script {first reply, after 1, 2, 3 intermediate statuses, after a status information (for a reservation: one already carrying a receipt number)}; and every (code, site) again with a connection fault (close / garbage) at the acknowledgement of the first attempt of that exchange, so that the abort answers the client's retry. Oracle: the call fails and the error identifies c (ZVTError::Aborted(c) in the chain, or the text contains the specification's message for c from an independently typed table, or c as a hex/decimal token); exactly three translations: read_card+6C -> NoCardPresented, reservation+FC -> NeedsPinEntry, end-of-day+A0 -> tolerated (the caller's own result stands). Duplicate-free enumeration; non-trivial = every case.".into();
+    report.rule = "all 256 result codes x 14 abort sites {commit / cancel of one transaction while another one stays open, read_card, begin (reservation), commit (partial reversal), cancel (pre-auth reversal), configure: system info / set terminal id / initialization / reversal of a dangling pre-authorisation / end-of-day, end-of-day inside commit and inside cancel, reversal of a dangling pre-authorisation inside commit} x position of the abort in the reply script {first reply, after 1, 2, 3 intermediate statuses, after a status information (for a reservation: one already carrying a receipt number)}; and every (code, site) again with a connection fault (close / garbage) at the acknowledgement of the first attempt of that exchange, so that the abort answers the client's retry; and for read_card every code again arriving only after the terminal's own card time-out (read_card_timeout in {0,1,15,253,254,255} s plus 0.1-1.9 s, inside the client's grace period). Oracle: the call fails and the error identifies c (ZVTError::Aborted(c) in the chain, or the text contains the specification's message for c from an independently typed table, or c as a hex/decimal token); exactly three translations: read_card+6C -> NoCardPresented, reservation+FC -> NeedsPinEntry, end-of-day+A0 -> tolerated (the caller's own result stands). Duplicate-free enumeration; non-trivial = every case.".into();
     report.exhaustive = Some(true);
     report.assumptions = vec!["the pending query is answered by the terminal with an abort-shaped packet by protocol design (2.10.1) and is not an abort site; aborts during the handshake are connection failures (C09)".into()];
     assert_eq!(SPEC_MESSAGES.len(), 79);
@@ -195,18 +195,43 @@ pub fn run(ctx: &Ctx) -> i32 {
             }
         }
     });
+    // read_card: the abort arrives only after the terminal's own card time-out has run out (every configured
+    // time-out class incl. the largest), still inside the client's grace period
+    sharded(&mut report, threads, |shard, r| {
+        let mut k = 0usize;
+        for (rc, extra_ms) in [(255u8, 900u64), (254, 1500), (253, 1900), (0, 900), (15, 100), (1, 1500)] {
+            for code in 0..=255u8 {
+                k += 1;
+                if k % threads != shard {
+                    continue;
+                }
+                one_at(r, &schema, Site::ReadCard, code, 0, None, Some((rc, extra_ms)));
+            }
+        }
+    });
     report.extra.insert("sites".into(), json!(SITES.iter().map(|s| format!("{s:?}")).collect::<Vec<_>>()));
     report.extra.insert("codes".into(), json!(256));
     report.finish()
 }
 
 fn one(r: &mut Report, schema: &Arc<refcodec::layout::Schema>, site: Site, code: u8, pos: usize, prior_fault: Option<FaultKind>) {
+    one_at(r, schema, site, code, pos, prior_fault, None)
+}
+
+/// `late`: (read_card_timeout, extra ms) - read_card only: the terminal reports the abort that long after the request,
+/// i.e. just after its own card time-out has run out (inside the client's documented grace of 2 s).
+fn one_at(r: &mut Report, schema: &Arc<refcodec::layout::Schema>, site: Site, code: u8, pos: usize, prior_fault: Option<FaultKind>, late: Option<(u8, u64)>) {
     let mut sc = Scenario::default();
     let pre = pre_for(site, pos);
     if pre.is_empty() && pos != 0 {
         return; // position not applicable to this site
     }
-    let abort = ExPlan { pre, result: ExResult::Abort(code), ..ExPlan::default() };
+    let mut abort = ExPlan { pre, result: ExResult::Abort(code), ..ExPlan::default() };
+    if let Some((rc, extra_ms)) = late {
+        sc.cfg.read_card_timeout = rc;
+        abort.silent_ms = rc as u64 * 1000 + extra_ms;
+        r.count("cases_with_the_abort_arriving_after_the_terminals_own_card_timeout", 1);
+    }
     // call under test is always the last one
     let (calls, call_idx): (Vec<Call>, usize) = match site {
         Site::ReadCard => (vec![Call::ReadCard], 2),
@@ -294,6 +319,7 @@ fn one(r: &mut Report, schema: &Arc<refcodec::layout::Schema>, site: Site, code:
         c["code"] = json!(format!("{code:02x}"));
         c["position"] = json!(pos);
         c["prior_fault"] = json!(prior_fault.map(|k| format!("{k:?}")));
+        c["abort_arrives_after"] = json!(late.map(|(rc, ms)| format!("read_card_timeout {rc} s + {ms} ms")));
         c
     };
     let eod_site = matches!(site, Site::ConfigureEndOfDay | Site::CommitEndOfDay | Site::CancelEndOfDay);
